@@ -581,6 +581,11 @@ class Ctx:
             tb.append("axioms reported by Print Assumptions: " + " | ".join(axioms))
         else:
             tb.append("Print Assumptions: every property theorem is closed under the global context (no axioms)")
+        try:
+            meta = json.load(open(os.path.join(VERIF, "harness", "props", self.pid.lower() + ".meta.json")))
+            tb.append("modelled / assumed, not verified (from the check's meta file): " + meta.get("level_note", ""))
+        except Exception:
+            pass
         self.coverage["trusted_base"] = tb
         self.proof_ok = ok
         return ok, (out if not ok else log)
